@@ -1,6 +1,7 @@
 import SdcModel.Consumer
 import SdcModel.Proofs.Consumer
 import SdcModel.Proofs.ConsumerMirror
+import SdcModel.Generated.ConsumerLocks
 /-!
 # C01 — the consumer MDIB is an exact mirror of the provider MDIB after any report history
 
@@ -151,6 +152,14 @@ theorem mirror_after_reload (hist : History) (p : Core) (s : St) (old : List Rep
   have hwf := loadSnapshot_wf hw
   rw [hload] at hwf
   exact (mirror_core hist p p hD hwf ⟨rfl, fun _ => rfl, fun _ => rfl, fun _ => rfl⟩).1
+
+/-- `mirror_after_reload` treats the end of `reload_all` (replay of the buffer, clearing, switch to `initialized`) as
+    one atomic step: justified by the traced program, in which the state switch happens inside the buffer-lock section
+    (otherwise a report arriving in between is appended to a buffer nobody replays and is lost) -/
+theorem reload_is_atomic_for_notifications :
+    switchInsideLock false Generated.reloadAllTrace = true ∧
+    Generated.reloadAllTrace.contains (.writeState .initialized) = true ∧
+    recheckBeforeAppend false false Generated.preCheckTrace = true := by decide
 
 /-! ### notifications -/
 
